@@ -20,6 +20,18 @@ CHECKS = {
              "No axioms (Print Assumptions: closed under the global context). Single-threaded use of the process-wide switches assumed.",
         technique="Coq proof by induction on scope programs + exhaustive/random trace correspondence evaluated by vm_compute",
     ),
+    "C16": dict(
+        text="Machine-checked proof (Coq) about the transcribed arithmetic of sliding_window_view for ANY rank, shape, window, step and dilation: for an accepted "
+             "configuration every output index (g..,n..,w..) addresses exactly the row-major position of arr[n.., g*step+w*dilation], which is a valid index and lies inside "
+             "arr's buffer; acceptance is exactly the documented rule; conv_nd/max_pool acceptance is characterised (conv: tiles AND window*dilation fits -- the full 'iff tiles' "
+             "statement is refuted with a witness, reported as a known finding). Tie: exhaustive 1-d lattices and random n-d configurations (odd layouts, malformed arguments) run on the "
+             "implementation and compared with the model in Coq; values of window/conv/pool are compared with naive nested loops on exact integers.",
+        design_ref="DESIGN.md 5 (C16)",
+        note="Partial: the theorems cover acceptance, shapes, strides, the element map and memory bounds of the window view and the acceptance/output-extent rules of conv/pool. "
+             "That conv_nd/max_pool VALUES equal the naive formula is tested (exactly, on integers), not yet proved; batchnorm, gru, softmax and the losses are not covered yet. "
+             "Trusted: Coq kernel, hand-written Model/Window.v (tied by correspondence), as_strided/ascontiguousarray semantics, harness. No axioms.",
+        technique="Coq proof (lia/nia + list induction) + exhaustive/random configuration correspondence evaluated by vm_compute",
+    ),
 }
 
 NOT_YET = "check not built yet in this round (planned, see DESIGN.md section 8); not claimed until its theorem and correspondence exist"
@@ -76,7 +88,7 @@ def main():
 
 
 # fix: commits in /repo (filled in as they are made)
-SOURCE_COMMITS = []
+SOURCE_COMMITS = ["1caf915", "cac9d7b"]
 
 if __name__ == "__main__":
     main()
